@@ -363,7 +363,7 @@ impl Machine {
         // vacant slot and the object read is garbage.
         #[cfg(feature = "verif-hooks")]
         crate::verif::check(
-            raw == 0 || raw & 1 == 1 || !self.heap.contains_key(heap_idx),
+            raw & 1 == 1 || !self.heap.contains_key(heap_idx),
             || format!("non-handle word aliases a vacant heap slot raw={raw:#x}"),
         );
         self.heap.get(heap_idx).and_then(|obj| {
